@@ -280,6 +280,25 @@ Definition prepend_s (w : world) (v u : nat) : res world :=
   do w4 <- v_setlen_term w3 v newLen;
   pop_var w4.
 
+(* prepend(const char* str, usize len) with str = data->str + off inside the own text: str keeps pointing into the
+   data the String had when the call was made (h0); String copy( *this) shares that block (or, for a non-owning
+   descriptor, h0 is foreign memory), so the prefix is read through h0 AFTER the detach *)
+Definition prepend_own (w : world) (v off len : nat) : res world :=
+  do h0 <- get_var w v;
+  do w0 <- push_copy w v;
+  let t := length (vars w) in
+  do nc <- var_len w0 t;
+  let newLen := len + nc in
+  do w1 <- detach w0 v 0 newLen;
+  do src <- d_read w1 h0 off len;                          (* Memory::copy((char* )data->str, str, len) *)
+  do w2 <- v_write w1 v 0 src;
+  do hc <- get_var w2 t;
+  do nc2 <- d_len w2 hc;
+  do src2 <- d_read w2 hc 0 nc2;
+  do w3 <- v_write w2 v len src2;
+  do w4 <- v_setlen_term w3 v newLen;
+  pop_var w4.
+
 (* the visible cells of a variable: data->str[0 .. data->len) *)
 Definition var_cells (w : world) (v : nat) : res (list cell) :=
   do h <- get_var w v; do n <- d_len w h; d_read w h 0 n.
@@ -692,8 +711,9 @@ Definition exec (w : world) (o : op) : res (world * out) :=
     Ok (w1, RInt (match m_strchr (skipn start a) c with Some k => Z.of_nat (start + k) | None => (-1)%Z end))
   | OFindS v l => do w1 <- cstr w v; do a <- var_bytes w1 v; Ok (w1, RInt (zidx (m_strstr a l)))
   | OFindSFrom v l start =>
+    (* repaired (fix 10): {return start > data->len ? 0 : strstr( *this + start, str);} *)
     do n <- var_len w v;
-    if n <=? start then Ok (w, RInt (-1)%Z) else
+    if n <? start then Ok (w, RInt (-1)%Z) else
     do w1 <- cstr w v; do a <- var_bytes w1 v;
     Ok (w1, RInt (match m_strstr (skipn start a) l with Some k => Z.of_nat (start + k) | None => (-1)%Z end))
   | OFindOneOf v l => do w1 <- cstr w v; do a <- var_bytes w1 v; Ok (w1, RInt (zidx (m_strpbrk a l)))
@@ -778,6 +798,9 @@ Definition exec (w : world) (o : op) : res (world * out) :=
       do bs <- var_bytes w1 v;
       Ok (w1, RInt (b2z (m_tobool_tail bs)))
   | OChar q c => Ok (w, RInt (m_char q c))
+  | OPrependOwn v off len =>
+    do w1 <- cstr w v;                                    (* const char* p = v *)
+    ret (prepend_own w1 v off len) RNone
   end.
 
 (* the value a variable denotes, and the reference state a world denotes *)
